@@ -270,3 +270,209 @@ def literal_words_pattern(words: Iterable[str], prefix: str = "", suffix: str = 
     """Semantic equivalent of pygments.lexer.words(...) (regex_opt builds an optimised but equivalent pattern)."""
     ws = sorted(set(words), key=lambda w: (-len(w), w))
     return f"{prefix}(?:{'|'.join(re.escape(w) for w in ws)}){suffix}"
+
+
+# ----------------------------------------------------------------------------------------------------------------------
+# Exponential ambiguity (catastrophic backtracking)
+#
+# A backtracking matcher needs time exponential in the input when the pattern has a loop through which some string can be
+# matched in two different ways (``(x+)*``, ``(a|a)*``, ``(x*)*``) and the part after the loop can fail.  The decision below is
+# made on a Thompson automaton of the parse tree in which look-around and anchor items are *blocked*: every path of that
+# automaton is a path the matcher can take whatever the context, so an ambiguity found in it is real (under-approximation;
+# an ambiguity that exists only through an assertion is not reported).
+
+class _NFA:
+    def __init__(self) -> None:
+        self.eps: list[list[int]] = []
+        self.chars: list[tuple[int, CharSet, int]] = []  # (source, set, target)
+
+    def new(self) -> int:
+        self.eps.append([])
+        return len(self.eps) - 1
+
+
+def _build(nfa: _NFA, tree: Any, flags: int, start: int) -> int | None:
+    """Adds the items of `tree` after state `start`; returns the end state (None if the sequence is blocked)."""
+    cur: int | None = start
+    for op, av in _items(tree):
+        if cur is None:
+            return None
+        s = _single_set(op, av, flags)
+        if s is not None:
+            t = nfa.new()
+            nfa.chars.append((cur, s, t))
+            cur = t
+        elif op is C.BRANCH:
+            end = nfa.new()
+            any_alt = False
+            for alt in av[1]:
+                a0 = nfa.new()
+                nfa.eps[cur].append(a0)
+                a1 = _build(nfa, alt, flags, a0)
+                if a1 is not None:
+                    nfa.eps[a1].append(end)
+                    any_alt = True
+            cur = end if any_alt else None
+        elif op is C.SUBPATTERN:
+            cur = _build(nfa, av[3], flags, cur)
+        elif op is getattr(C, "ATOMIC_GROUP", object()):
+            cur = _build(nfa, av, flags, cur)
+        elif op in (C.MAX_REPEAT, C.MIN_REPEAT, getattr(C, "POSSESSIVE_REPEAT", None)):
+            lo, hi, sub = av
+            for _ in range(min(lo, 3)):
+                if cur is None:
+                    break
+                cur = _build(nfa, sub, flags, cur)
+            if cur is None:
+                return None
+            if hi == C.MAXREPEAT:
+                loop = nfa.new()
+                nfa.eps[cur].append(loop)
+                body0 = nfa.new()
+                nfa.eps[loop].append(body0)
+                body1 = _build(nfa, sub, flags, body0)
+                if body1 is not None:
+                    nfa.eps[body1].append(loop)
+                out = nfa.new()
+                nfa.eps[loop].append(out)
+                cur = out
+            else:
+                out = nfa.new()
+                nfa.eps[cur].append(out)
+                for _ in range(min(hi - lo, 3)):
+                    b0 = nfa.new()
+                    nfa.eps[cur].append(b0)
+                    b1 = _build(nfa, sub, flags, b0)
+                    if b1 is None:
+                        break
+                    nfa.eps[b1].append(out)
+                    cur = b1
+                cur = out
+        else:
+            return None  # AT, ASSERT, ASSERT_NOT, GROUPREF, ...: blocked
+    return cur
+
+
+def exponential_ambiguity(tree: Any, flags: int = 0) -> str | None:
+    """A description of a loop of the pattern through which one string is matched in two ways while the rest of the pattern can
+    still fail, or None if the (assertion-free part of the) pattern has none."""
+    nfa = _NFA()
+    s0 = nfa.new()
+    acc = _build(nfa, tree, flags, s0)
+    n_edges = len(nfa.chars)
+    if n_edges == 0:
+        return None
+    by_source: dict[int, list[int]] = {}
+    for i, (src, _cs, _t) in enumerate(nfa.chars):
+        by_source.setdefault(src, []).append(i)
+
+    def eps_paths(frm: int) -> dict[int, int]:
+        """state -> number (capped at 2) of distinct eps-walks from `frm` that use no eps-edge twice."""
+        count: dict[int, int] = {}
+        budget = [20000]
+
+        def dfs(s: int, used: frozenset[tuple[int, int]]) -> None:
+            count[s] = min(2, count.get(s, 0) + 1)
+            budget[0] -= 1
+            if budget[0] < 0:
+                raise OverflowError("pattern too large for the ambiguity analysis")
+            for t in nfa.eps[s]:
+                if (s, t) not in used:
+                    dfs(t, used | {(s, t)})
+        dfs(frm, frozenset())
+        return count
+
+    # edge graph: e -> e' with multiplicity
+    nxt: list[dict[int, int]] = []
+    reaches_accept: list[bool] = []
+    for (_src, _cs, tgt) in nfa.chars:
+        cnt = eps_paths(tgt)
+        d: dict[int, int] = {}
+        for st, k in cnt.items():
+            for e2 in by_source.get(st, ()):
+                d[e2] = min(2, d.get(e2, 0) + k)
+        nxt.append(d)
+        reaches_accept.append(acc is not None and acc in cnt)
+    inter: dict[tuple[int, int], bool] = {}
+
+    def meet(a: int, b: int) -> bool:
+        k = (a, b) if a <= b else (b, a)
+        if k not in inter:
+            inter[k] = not nfa.chars[a][1].intersect(nfa.chars[b][1]).is_empty()
+        return inter[k]
+
+    # product graph over pairs of edges that can consume the same character
+    import sys
+    nodes = [(a, b) for a in range(n_edges) for b in range(n_edges) if meet(a, b)]
+    succ: dict[tuple[int, int], list[tuple[int, int]]] = {}
+    for (a, b) in nodes:
+        out = []
+        for a2 in nxt[a]:
+            for b2 in nxt[b]:
+                if meet(a2, b2):
+                    out.append((a2, b2))
+        succ[(a, b)] = out
+    # strongly connected components (iterative Tarjan)
+    index: dict[tuple[int, int], int] = {}
+    low: dict[tuple[int, int], int] = {}
+    comp: dict[tuple[int, int], int] = {}
+    stack: list[tuple[int, int]] = []
+    on_stack: set[tuple[int, int]] = set()
+    counter = 0
+    ncomp = 0
+    for root in nodes:
+        if root in index:
+            continue
+        work = [(root, iter(succ[root]))]
+        index[root] = low[root] = counter
+        counter += 1
+        stack.append(root)
+        on_stack.add(root)
+        while work:
+            v, it = work[-1]
+            advanced = False
+            for w in it:
+                if w not in index:
+                    index[w] = low[w] = counter
+                    counter += 1
+                    stack.append(w)
+                    on_stack.add(w)
+                    work.append((w, iter(succ[w])))
+                    advanced = True
+                    break
+                if w in on_stack:
+                    low[v] = min(low[v], index[w])
+            if advanced:
+                continue
+            work.pop()
+            if work:
+                low[work[-1][0]] = min(low[work[-1][0]], low[v])
+            if low[v] == index[v]:
+                while True:
+                    w = stack.pop()
+                    on_stack.discard(w)
+                    comp[w] = ncomp
+                    if w == v:
+                        break
+                ncomp += 1
+    members: dict[int, list[tuple[int, int]]] = {}
+    for v, c in comp.items():
+        members.setdefault(c, []).append(v)
+    for c, vs in members.items():
+        cyclic = len(vs) > 1 or vs[0] in succ[vs[0]]
+        if not cyclic:
+            continue
+        diag = [v for v in vs if v[0] == v[1]]
+        if not diag:
+            continue
+        off = [v for v in vs if v[0] != v[1]]
+        double = [(v, w) for v in diag for w in succ[v] if w[0] == w[1] and comp.get(w) == c and nxt[v[0]].get(w[0], 0) >= 2]
+        if not off and not double:
+            continue
+        e = diag[0][0]
+        if all(reaches_accept[v[0]] for v in diag):
+            continue  # the pattern can end right after the loop: the first attempt succeeds, nothing is retried
+        how = ("two different iterations of the loop consume the same text" if off else
+               "the loop can be re-entered in two ways after the same text")
+        return f"a loop over {nfa.chars[e][1].describe()} is ambiguous ({how}) and the rest of the pattern can fail afterwards"
+    return None
